@@ -60,6 +60,9 @@ func copyTree(src, dst string) error {
 // writing evidence; it returns the obligations.
 func runOn(dir string, p *Property, extraEnv []string) ([]*core.Ob, error) {
 	prog, err := core.Load(dir, extraEnv, p.Patterns...)
+	if err == nil {
+		setInlineKeep(prog)
+	}
 	if err != nil {
 		return nil, err
 	}
